@@ -153,6 +153,11 @@ def floors(tier):
         "initial:none_default": 80 * k,
         "initial:empty": 40 * k,
         "histories_with_failure": 60 * k,
+        "initial_points_with_conflicting_constant": 100 * k,
+        "initial_points_with_key_outside_space": 60 * k,
+        "nearly_exhausted_medium_space:bayesopt": 2 * k,
+        "nearly_exhausted_medium_space:hb_bayesopt": 2 * k,
+        "nearly_exhausted_medium_space:hypertune": 2 * k,
         "restricted_sets_fully_suggested": 60 * k,
         "exhausted_restricted_sets": 20 * k,
         "decided:in_restricted_set": 400 * k,
@@ -539,6 +544,38 @@ def _member(rng, P, values):
     return rng.choice(values)
 
 
+def _other_value(rng, v):
+    """A value different from constant ``v``: same type (another study's epochs / dataset) or another type."""
+    if rng.random() < 0.3:
+        return str(v) + "_" if not isinstance(v, str) else 3
+    if isinstance(v, str):
+        return v + "2"
+    if isinstance(v, bool):
+        return not v
+    if isinstance(v, int):
+        return v + rng.choice([-4, -1, 1, 20])
+    return v * 2 + 1.5
+
+
+def decorate_points(rng, pts, desc, rate=0.3):
+    """points_to_evaluate entries copied from elsewhere: they may also carry keys which are constants of the space (same
+    value, a different value, another type) or which are not in the space at all. Documented (_impute_default_config):
+    entries whose config-space value is not a Domain are not included."""
+    consts = [k for k, P in desc.items() if P["ctor"] == CONST]
+    for pt in pts:
+        if rng.random() >= rate:
+            continue
+        for c in consts:
+            r = rng.random()
+            if r < 0.3:
+                pt[c] = desc[c]["value"]
+            elif r < 0.8:
+                pt[c] = _other_value(rng, desc[c]["value"])
+        if rng.random() < 0.4 or not consts:
+            pt[rng.choice(["epochs_old", "st_checkpoint_dir", "trial_id", "note"])] = rng.choice([3, "x", 0.5])
+    return pts
+
+
 def gen_pte(rng, desc, values, lib_mid):
     """points_to_evaluate: None | [] | list of partial configurations with exact members."""
     hp = [k for k, P in desc.items() if P["ctor"] != CONST]
@@ -576,7 +613,7 @@ def gen_pte(rng, desc, values, lib_mid):
                     if k in desc and c07.FAM.get(desc[k]["ctor"]) == "int" and isinstance(src[k], int) and abs(src[k]) < 2 ** 52:
                         src[k] = float(src[k])
             pts.insert(rng.randint(0, len(pts)), src)
-    return pts
+    return decorate_points(rng, pts, desc)
 
 
 RC_KINDS = ("random", "bayesopt", "hb_bayesopt", "hypertune", "sync_hb", "direct_random")
@@ -629,7 +666,7 @@ def gen_pte_rc(rng, rc, desc, values):
             pts.insert(rng.randint(0, len(pts)), outside)
         if rng.random() < 0.5:
             pts.insert(rng.randint(0, len(pts)), dict(rng.choice(pts)))
-    return pts
+    return decorate_points(rng, pts, desc)
 
 
 def cast_given(P, g):
@@ -802,6 +839,12 @@ class Oracle:
             if len(self.ref) < len(self.pte):
                 o.count("initial:duplicates_dropped")
             o.count("initial:given_points", len(self.pte))
+            for pt in self.pte:
+                if any(k in pt and (type(pt[k]) is not type(P["value"]) or pt[k] != P["value"])
+                       for k, P in self.desc.items() if P["ctor"] == CONST):
+                    o.count("initial_points_with_conflicting_constant")
+                if any(k not in self.desc for k in pt):
+                    o.count("initial_points_with_key_outside_space")
 
     # -- clause 1
     def check_config(self, cfg, what):
@@ -957,6 +1000,19 @@ class Oracle:
         elif distinct < self.size and self.rc_set is not None:
             self.viol("none_only_when_exhausted", f"{self.kind}:none_before_exhaustion:restricted_set:{why}",
                       dict(detail, never_suggested=sorted(self.rc_set - set(self.by_tpl), key=repr)[:10]))
+        elif distinct < self.size and why == "model_based_search_gave_up":
+            # documented scheme of the BO step: num_init_candidates = 250 random candidates, re-drawn for up to 20 rounds
+            pm = 1.0
+            for k in self.hp:
+                q = dom_min_prob(self.desc[k])
+                pm = None if (pm is None or q is None) else pm * q
+            left = self.size - distinct
+            p_fail = None if pm is None else (1.0 - min(1.0, left * pm)) ** 5000
+            detail.update({"configurations_left": left, "probability_documented_scheme_finds_none": p_fail})
+            if p_fail is not None and p_fail <= 1e-4:
+                self.viol("none_only_when_exhausted", f"{self.kind}:none_before_exhaustion:finite_space:{why}", detail)
+            else:
+                o.count("undecided:model_based_none_within_probability_budget")
         elif distinct < self.size:
             self.viol("none_only_when_exhausted", f"{self.kind}:none_before_exhaustion:finite_space:{why}", detail)
         else:
@@ -1271,8 +1327,87 @@ def expand(spec):
         elif kind in ("random", "grid", "regevo"):
             p["nonfinite_rate"] = r2.choice([0.0, 0.0, 0.03])
             p["nonfinite_trials"] = r2.choice([0.0, 0.0, 0.15])
+    # medium-sized finite space (100-1000 configurations) driven close to exhaustion before the model-based step
+    r4 = random.Random(spec["seed"] * 69069 % (2 ** 32) + 41)
+    p["medium"] = kind in GP_KINDS and "space" not in spec and not p["restrict"] and r4.random() < 0.3
+    if p["medium"]:
+        n1 = r4.randint(10, 30)
+        n2 = r4.randint(max(4, -(-100 // n1)), min(40, 1000 // n1))
+        lo = r4.randint(-5, 5)
+        md = {"a": {"ctor": "randint", "lower": lo, "upper": lo + n1 - 1}}
+        if n2 <= 8 and r4.random() < 0.5:
+            md["c"] = {"ctor": "choice", "categories": [f"k{j}" for j in range(n2)]}
+        else:
+            md["b"] = {"ctor": "randint", "lower": 1, "upper": n2}
+        if r4.random() < 0.6:
+            md["dataset"] = {"ctor": CONST, "value": "abc"}
+        if r4.random() < 0.4:
+            md["n_layers"] = {"ctor": CONST, "value": 7}
+        p.update({"space": md, "medium_remaining": r4.randint(1, 5), "medium_seed": r4.randrange(2 ** 31), "exhaust": True,
+                  "allow_duplicates": False, "use_mra": False, "nonfinite_rate": 0.0, "nonfinite_trials": 0.0, "fail_rate": 0.0,
+                  "max_t": 1 if kind == "bayesopt" else 2, "checkpointing": True,
+                  "hb": {"type": "stopping", "mode": p["mode"], "grace_period": 1, "reduction_factor": 2, "max_t": 2,
+                         "brackets": 2 if kind == "hypertune" else 1, "rung_system_per_bracket": False}})
     p.update({k: v for k, v in spec.items() if k not in ("seed", "kind") and not k.startswith("_")})
     return p
+
+
+def medium_plan(p, desc, values):
+    """All configurations of a medium finite space except a handful as points_to_evaluate (shuffled); the first trials
+    complete with results, a few stay pending, the rest fail at once (failed trials are excluded but not modelled, which
+    keeps the surrogate small); then the searcher is asked until it answers None."""
+    import itertools
+
+    rng = random.Random(p["medium_seed"])
+    hp = [k for k, P in desc.items() if P["ctor"] != CONST]
+    dom = []
+    for k in hp:
+        P = desc[k]
+        dom.append(list(range(P["lower"], P["upper"] + 1)) if P["ctor"] == "randint" else list(P["categories"]))
+    allc = [dict(zip(hp, t)) for t in itertools.product(*dom)]
+    rng.shuffle(allc)
+    r = min(p["medium_remaining"], len(allc) - 6)
+    pts = decorate_points(rng, allc[r:], desc, rate=0.1)
+    n = len(pts)
+    done = set(range(0, min(4, n)))
+    pending = set(rng.sample(range(4, n), min(3, n - 4)))
+    fail = {str(i): [0, 0] for i in range(n) if i not in done and i not in pending}
+    order = []
+    for i in range(n):
+        order.append("s")
+        if i in done:
+            order += [i] * (p["max_t"] + 1)
+        elif i not in pending:
+            order.append(i)
+    order += ["s"] * (r + 1)
+    return pts, fail, order, r, len(allc)
+
+
+def dom_min_prob(P):
+    """Smallest probability with which the domain's documented sampler returns any one of its values (None: not computed)."""
+    ctor = P["ctor"]
+    n = dom_count(P)
+    if n is None:
+        return None
+    if n == 1:
+        return 1.0
+    if ctor in ("randint", "choice", "ordinal_equal", "finrange", "logfinrange", "finrange_int", "logfinrange_int"):
+        return 1.0 / (P["size"] if "size" in P else (P["upper"] - P["lower"] + 1 if "lower" in P else len(P["categories"])))
+    if ctor == "lograndint":
+        lo, up = P["lower"], P["upper"]
+        w = math.log(up) - math.log(lo)
+        pr = []
+        for v in range(lo, up + 1):
+            a, b = max(lo, v - 0.5), min(up, v + 0.5)
+            pr.append((math.log(b) - math.log(a)) / w)
+        return min(pr)
+    if ctor in ("ordinal_nn", "ordinal_nnlog"):
+        xs = [math.log(float(c)) for c in P["categories"]] if ctor == "ordinal_nnlog" else [float(c) for c in P["categories"]]
+        half = 0.5 * sum(b - a for a, b in zip(xs, xs[1:])) / (len(xs) - 1)
+        lo, up = xs[0] - half, xs[-1] + half
+        edges = [lo] + [0.5 * (a + b) for a, b in zip(xs, xs[1:])] + [up]
+        return min(b - a for a, b in zip(edges, edges[1:])) / (up - lo)
+    return None
 
 
 # ------------------------------------------------------------------------------------------ scheduler construction
@@ -1373,9 +1508,13 @@ def why_none(obj, kind, restricted=False):
         if kind == "dehb":
             lists.append(obj._excl_list)
         elif kind in GP_KINDS:
-            lists.append(s._get_exclusion_candidates())
+            excl = s._get_exclusion_candidates()
+            lists.append(excl)
             if s._random_searcher is not None:
                 lists.append(s._random_searcher._excl_list)
+            if not any(x.config_space_exhausted() for x in lists) and not s._points_to_evaluate \
+                    and not s._should_pick_random_config(excl):
+                return "model_based_search_gave_up"  # the None came from the BO step, not from random sampling
         else:
             lists.append(s._excl_list)
         return "exclusion_list_full" if any(x.config_space_exhausted() for x in lists) else "retries_exhausted"
@@ -1581,8 +1720,13 @@ def run_scheduler_case(spec, p, o):
     if rc is not None:
         orc_probe.set_restricted(rc)
         o.count("restricted_histories:" + kind)
+    medium = None
+    if p.get("medium"):
+        medium = medium_plan(p, desc, orc_probe.values)
     if "pte" in p:
         pte = p["pte"]
+    elif medium is not None:
+        pte = medium[0]
     elif rc is not None:
         pte = gen_pte_rc(random.Random(p["pte_seed"]), rc, desc, orc_probe.values)
     else:
@@ -1626,6 +1770,8 @@ def run_scheduler_case(spec, p, o):
           "policy": p["policy"], "seed": spec["seed"] + 2, "max_events": p["max_events"],
           "max_resource_attr": "epochs" if use_mra else None, "checkpointing": p.get("checkpointing", True),
           "fail": fail, "order": p.get("order"), "pbt_restart_levels": True}
+    if medium is not None and not p.get("order"):
+        vp.update({"fail": medium[1], "order": medium[2], "max_events": len(medium[2]) + 5, "n_workers": 10 ** 6})
     if rc is not None and kind in GP_KINDS and not p.get("rc_ask_beyond"):
         # the GP searchers raise when asked again after the list is used up (see findings): mostly not asked
         vp["max_trials"] = len(orc.rc_set)
@@ -1651,6 +1797,11 @@ def run_scheduler_case(spec, p, o):
         else:
             o.count(f"other_api_raised:{api}:{exc_name}")
     orc.grid_finish()
+    if medium is not None and orc.ref is not None and orc.n_fresh >= len(orc.ref):
+        # the model-based searcher was asked with only a handful of configurations left
+        o.count("nearly_exhausted_medium_space:" + kind)
+        o.count(f"medium_space_remaining:{medium[3]}")
+        o.count("medium_space_configurations", medium[4])
     if any(e[0] == "error" for e in vt.events):
         o.count("histories_with_failure")
     for ev in vt.events[-50:]:
